@@ -75,6 +75,12 @@ func (sc *specCtx) lookup(name string) (Val, bool) {
 		if v, ok := sc.st.names[name]; ok {
 			return v, true
 		}
+		// a loop clause adopted by a callee executed in place may still name variables of the enclosing function
+		for i := len(sc.st.outer) - 1; i >= 0; i-- {
+			if v, ok := sc.st.outer[i][name]; ok {
+				return v, true
+			}
+		}
 	}
 	if v, ok := sc.params[name]; ok {
 		return v, true
